@@ -15,7 +15,7 @@ import os, random, itertools, shutil, tempfile, csv
 from harness import common as H
 
 PROP = "C15"
-RULE = ("api: every sequence of <=3 (quick) / <=4 (thorough) calls over a 11-call alphabet after a fixed prelude, "
+RULE = ("api: every sequence of <=3 (quick) / <=4 (thorough) calls over a 13-call alphabet (incl. a rank match and a use of the matched rank) after a fixed prelude, "
         "plus seeded random multi-session sequences (0-3 earlier sessions, dirty or clean, shared prefixes, "
         "setNumCachedUses 2..5, consumable traces, matched ranks, ~10% illegal calls); kernel: a fixed list of "
         "classic shapes (dot, mat-vec, mat-mat in all 6 loop orders, element-wise, reductions, outer product, "
@@ -246,7 +246,12 @@ def _free_session(rng, pfx, legal=False):
         ops.append(["matchRanks", rng.choice(RANKS + ["S"]), rng.choice(RANKS + ["S"])])
     ops.append(["beginCollect", pfx if (legal or rng.random() < 0.9) else None])
     cons = []
-    for r in RANKS + ["S"]:
+    # late-match style: every source rank (S, Q) has ONE partner among the loop ranks and sources are never matched
+    # with each other, so a closure never holds two registered ranks (the code walks Python sets there: the rank an
+    # unmatched source would get depends on the set order)
+    late = rng.random() < 0.45
+    srcs = ["S", "Q"] if late else ["S"]
+    for r in RANKS + srcs:
         for t in ["iter", "x"]:
             u = rng.random()
             if u < 0.3:
@@ -254,14 +259,28 @@ def _free_session(rng, pfx, legal=False):
             elif u < 0.4:
                 ops.append(["trace", r, t, True])
                 cons.append((r, t))
-    if rng.random() < 0.25:
+    ranks = rng.sample(RANKS, rng.randrange(1, 4))
+    partner = {x: rng.choice(ranks) for x in srcs}
+    if late:
+        if rng.random() < 0.3:
+            ops.append(["matchRanks", "S", partner["S"]])
+    elif rng.random() < 0.25:
         ops.append(["matchRanks", "S", rng.choice(RANKS)])
         if rng.random() < 0.3:
             ops.append(["matchRanks", "S", rng.choice(RANKS)])
-    ranks = rng.sample(RANKS, rng.randrange(1, 4))
     body = _nest_body(rng, ranks, ["x"])
     # matched rank uses, late trace declarations, threshold changes, consumption
     extra = []
+    if late:
+        for x in srcs:
+            for _ in range(rng.choice([1, 1, 2])):      # the match itself, possibly repeated, either way round
+                extra.append(["matchRanks", x, partner[x]] if rng.random() < 0.7 else ["matchRanks", partner[x], x])
+        if not legal:
+            for _ in range(rng.randrange(0, 5)):
+                x = rng.choice(srcs)
+                extra.append(rng.choice([["addUse", x, rng.randrange(0, 5), rng.randrange(0, 3), rng.choice(["iter", "x"]), None],
+                                         ["incIter", x], ["endIter", x], ["getLabel", x], ["getIndex", x],
+                                         ["isTraced", x, "iter"]]))
     for _ in range(rng.randrange(0, 4)):
         if legal:
             extra.append(rng.choice([["getLabel", "S"], ["getLabel", "Q"], ["setNumCachedUses", rng.choice([2, 3, 4])],
@@ -291,11 +310,12 @@ def _free_session(rng, pfx, legal=False):
 
 ALPHABET = [["registerRank", "K"], ["addUse", "K", 3, 1, "iter", None], ["incIter", "K"], ["endIter", "K"],
             ["incCount", "Compute", "payload_mul", 1], ["getLabel", "K"], ["endCollect"], ["beginCollect", "p0"],
-            ["trace", "K", "iter", False], ["setNumCachedUses", 2], ["registerRank", "M"]]
+            ["trace", "K", "iter", False], ["setNumCachedUses", 2], ["registerRank", "M"],
+            ["matchRanks", "S", "K"], ["addUse", "S", 2, 0, "iter", None]]
 
 
 def gen_api(rng, tier):
-    prelude = [["beginCollect", "p0"], ["trace", "K", "iter", False]]
+    prelude = [["beginCollect", "p0"], ["trace", "K", "iter", False], ["trace", "S", "iter", False]]
     L = 3 if tier == "quick" else 4
     for n in range(0, L + 1):
         for combo in itertools.product(ALPHABET, repeat=n):
